@@ -650,23 +650,27 @@ impl Property for C19 {
             rng.range(60, 300) as u32
         } else if !zst && rng.chance(1, 400) {
             rng.range(3000, 9000) as u32
-        } else if !zst && rng.chance(1, 40_000) {
-            // beyond 2^16 / 2^20 stored values
-            *rng.pick(&[65_540u32, 1_048_576, 1_048_580, 1_100_000])
+        } else if !zst && rng.chance(1, 15_000) {
+            // beyond 2^16 / 2^17 / 2^18 / 2^20 stored values, even and odd
+            *rng.pick(&[65_540u32, 131_071, 131_072, 131_073, 200_001, 262_144, 262_145, 262_147, 1_048_576, 1_048_580, 1_100_000])
         } else {
             0
         };
         if prefill > 0 {
             for o in ops.iter_mut() {
-                if let Op::Fetch(c) = o {
-                    if rng.chance(2, 3) {
+                // (appends, too, sometimes repeat a stored value: a duplicate above its first occurrence)
+                let is_append = matches!(o, Op::Append(_));
+                if let Op::Fetch(c) | Op::Append(c) = o {
+                    if rng.chance(2, 3) && (!is_append || rng.chance(1, 2)) {
                         // (by-fetch prefill stores every second class: odd ones sit between two stored values)
                         let step = if prefill_by_fetch { 2 } else { 1 };
                         let n = prefill as u64;
                         // early values, the newest ones, or anywhere in between (block / window boundaries of a scan)
-                        let k = match rng.below(4) {
+                        let k = match rng.below(5) {
                             0 => rng.below(64.min(n)),
                             1 => n - 1 - rng.below(64.min(n)),
+                            // the middle of the storage (scans that split it in halves or close in from both ends)
+                            4 => ((n - 1) / 2 + rng.below(3)).saturating_sub(1).min(n - 1),
                             2 => {
                                 // the edge of a power-of-two look-back window (64 .. 65536 values before the end)
                                 let w = 1u64 << rng.range(6, 16);
